@@ -263,6 +263,40 @@ def part_formulas(ctx):
     k, v = D.run_impl(lambda: g2(None, 'A^-1'))
     if not (k == 'out' and v['ok'] is True):
         ctx.violation('negative powers are inverses when enabled', {'part': 'negpow-grader', 'student': 'A^-1'}, impl=v if k == 'err' else GG.canon_result(v))
+    # the switch is consulted at EVERY evaluation: the same constant text evaluated first where inverses are enabled (plain evaluator,
+    # another grader, a neighbouring box) must still be refused by a grader that has them disabled - and the other way round
+    from mitxgraders import ListGrader
+    from mitxgraders.helpers.calc.expressions import evaluator as _ev
+    rng = ctx.rng
+    for it in range(ctx.scale(12, 120)):
+        a, b, c, d = [rng.randint(-4, 4) for _ in range(4)]
+        if a * d - b * c == 0:
+            d += 1
+            if a * d - b * c == 0:
+                continue
+        txt = '[[%d,%d],[%d,%d]]^-%d' % (a, b, c, d, rng.choice([1, 1, 2]))
+        spaced = txt.replace(',', ', ') if rng.random() < 0.5 else txt
+        g_off = MatrixGrader(answers='[[1,0],[0,1]]', max_array_dim=2, negative_powers=False)
+        g_on = MatrixGrader(answers=txt, max_array_dim=2)
+        order = rng.choice(['enabled-first', 'disabled-first', 'evaluator-first', 'list'])
+        outs = []
+        if order == 'enabled-first':
+            outs.append(('on', D.run_impl(lambda: g_on(None, spaced)))); outs.append(('off', D.run_impl(lambda: g_off(None, txt))))
+        elif order == 'disabled-first':
+            outs.append(('off', D.run_impl(lambda: g_off(None, txt)))); outs.append(('on', D.run_impl(lambda: g_on(None, spaced)))); outs.append(('off', D.run_impl(lambda: g_off(None, spaced))))
+        elif order == 'evaluator-first':
+            outs.append(('ev', D.run_impl(lambda: _ev(spaced, max_array_dim=2)[0]))); outs.append(('off', D.run_impl(lambda: g_off(None, txt))))
+        else:
+            lg = ListGrader(answers=[txt, '[[1,0],[0,1]]'], subgraders=[g_on, g_off], ordered=True)
+            k, v = D.run_impl(lambda: lg(None, [spaced, txt]))
+            outs.append(('off', (k, v)))
+        for which, (k, v) in outs:
+            case = {'part': 'negpow-order', 'text': txt, 'order': order, 'which': which}
+            if which == 'off' and not (k == 'err' and v[1] == 'MathArrayError'):
+                ctx.violation('a grader with negative powers disabled did not refuse %r (evaluation order: %s)' % (txt, order), case, impl=v if k == 'err' else GG.canon_result(v))
+            if which == 'on' and not (k == 'out' and v['ok'] is True):
+                ctx.violation('a grader with negative powers enabled did not accept its own answer %r (evaluation order: %s)' % (txt, order), case, impl=v if k == 'err' else GG.canon_result(v))
+        ctx.case({'negpow-order': txt, 'order': order}, nontrivial_key=('npo', txt, order), kind='negpow-order:' + order)
     from mitxgraders.helpers.calc import MathArray as MA
     if MA._negative_powers is not True:
         ctx.violation('the negative-powers switch was not restored after a MatrixGrader call', {'part': 'negpow-switch'}, impl=MA._negative_powers)
